@@ -3,5 +3,6 @@ pub mod crash;
 pub mod db;
 pub mod evbuf;
 pub mod hist;
+pub mod sched;
 pub mod stress;
 pub mod util;
